@@ -49,6 +49,7 @@ inductive Ins where
   | checkType (reg : Nat) (ty : Ty) (off : Nat)  -- type matches: fall through; else ip + 1 + off
   | copy (dst src : Nat)
   | throw (v : Val)
+  | rethrow (reg : Nat)                     -- `Throw catch_register` after a failed last map pattern
   | call (f : Nat)                          -- Koto call: new frame, no barrier
   | callNative (f : Nat)                    -- native adaptor calling back: new frame with barrier
   | ret
@@ -138,10 +139,11 @@ def step (code : Code) (s : VM) : VM :=
       | .tryEnd => setTop s { f1 with catchStack := f.catchStack.drop 1 } rest
       | .jumpFwd off => setTop s { f with ip := f.ip + 1 + off } rest
       | .checkType reg ty off =>
-        if (regGet f.regs reg).ty = ty then setTop s f1 rest
+        if accepts (some ty) (regGet f.regs reg) then setTop s f1 rest
         else setTop s { f with ip := f.ip + 1 + off } rest
       | .copy dst src => setTop s { f1 with regs := (dst, regGet f.regs src) :: f.regs } rest
       | .throw v => raise v s
+      | .rethrow reg => raise (regGet f.regs reg) s
       | .call g => { s with frames := { fn := g } :: f1 :: rest }
       | .callNative g => { s with frames := { fn := g, barrier := true } :: f1 :: rest }
       | .ret =>
@@ -193,9 +195,14 @@ def exec (code : Code) (fuel : Nat) : Outcome :=
 /-- typed* catch chain, then the last block; `comp` compiles a block -/
 def compileCatches (comp : E → Option (List Ins)) (reg : Nat) : List Catch → Option (List Ins)
   | [] => some []
-  | [(_, x, body)] => do
+  | [(ty, x, body)] => do
     let b ← comp body
-    pure (.copy x reg :: b)
+    match ty with
+    | some (.keys ks) =>
+      -- a map pattern in the last catch block may not match: the error is thrown again
+      -- (/repo eaf69a5; before, the failed-unpack jump landed after the block: finding F-C04-9)
+      pure (.checkType reg (.keys ks) (b.length + 2) :: .copy x reg :: b ++ [.jumpFwd 1, .rethrow reg])
+    | _ => pure (.copy x reg :: b)
   | (ty, x, body) :: c :: rest => do
     let b ← comp body
     let r ← compileCatches comp reg (c :: rest)
